@@ -55,6 +55,36 @@ def worker_cf(sig, *a, **kw):
                 fh.write(json.dumps({'ev': 'done', 'key': key, 't': time.time()}) + '\n')
 
 
+class PoolTimeout(Exception):
+    pass
+
+
+class time_limit:
+    """Guard around a real-pool run: a pool that does not come back within `seconds` is a MACHINERY failure (exit 2), never a verdict."""
+
+    def __init__(self, seconds=240):
+        self.seconds = seconds
+
+    def _fire(self, *a):
+        raise PoolTimeout('real pool run exceeded %d s' % self.seconds)
+
+    def __enter__(self):
+        import signal
+        import threading
+        self.armed = threading.current_thread() is threading.main_thread()
+        if self.armed:
+            self.old = signal.signal(signal.SIGALRM, self._fire)
+            signal.alarm(self.seconds)
+        return self
+
+    def __exit__(self, *a):
+        import signal
+        if self.armed:
+            signal.alarm(0)
+            signal.signal(signal.SIGALRM, self.old)
+        return False
+
+
 def install():
     from bycycle.features import compute_features
     _ORIG['cf'] = compute_features
@@ -142,7 +172,7 @@ def run_2d(sigs, fs, f_range, kwargs, n_jobs, progress, delays, logdir, via_grou
     try:
         with warnings.catch_warnings():
             warnings.simplefilter('ignore')
-            with install():
+            with time_limit(), install():
                 if via_group:
                     k0 = kwargs
                     g = BycycleGroup(center_extrema=k0.get('center_extrema', 'peak'), thresholds=copy.deepcopy(k0['threshold_kwargs']), return_samples=return_samples)
@@ -152,6 +182,8 @@ def run_2d(sigs, fs, f_range, kwargs, n_jobs, progress, delays, logdir, via_grou
                 else:
                     dfs = compute_features_2d(sigs, fs, f_range, compute_features_kwargs=kwargs, axis=0, return_samples=return_samples, n_jobs=n_jobs, progress=progress)
                     out = [table_fp(d) for d in dfs]
+    except PoolTimeout:
+        raise
     except Exception as ex:
         raised = type(ex).__name__ + ':' + str(ex)[:80]
     finally:
@@ -195,7 +227,7 @@ def run_3d(sigs, fs, f_range, kwargs, axis, n_jobs, delays, logdir, via_group=Fa
     try:
         with warnings.catch_warnings():
             warnings.simplefilter('ignore')
-            with install():
+            with time_limit(), install():
                 if via_group:
                     g = BycycleGroup(center_extrema=kwargs.get('center_extrema', 'peak'), thresholds=copy.deepcopy(kwargs['threshold_kwargs']))
                     g.fit(sigs, fs, f_range, axis=axis, n_jobs=n_jobs, progress=progress)
@@ -204,6 +236,8 @@ def run_3d(sigs, fs, f_range, kwargs, axis, n_jobs, delays, logdir, via_group=Fa
                 else:
                     res = compute_features_3d(sigs, fs, f_range, compute_features_kwargs=kwargs, axis=axis, n_jobs=n_jobs, progress=progress)
                 out = [[table_fp(d) for d in row] for row in res]
+    except PoolTimeout:
+        raise
     except Exception as ex:
         raised = type(ex).__name__ + ':' + str(ex)[:80]
     finally:
@@ -250,9 +284,11 @@ def run_fault(sigs, fs, f_range, kwargs, n_jobs, delays, failing, logdir):
     try:
         with warnings.catch_warnings():
             warnings.simplefilter('ignore')
-            with install():
+            with time_limit(), install():
                 out = compute_features_2d(sigs, fs, f_range, compute_features_kwargs=kwargs, axis=0, n_jobs=n_jobs)
                 n_out = len(out)
+    except PoolTimeout:
+        raise
     except ValueError as ex:
         raised = 'ValueError'
         for k, i in keys.items():
